@@ -32,6 +32,7 @@ import (
 	"math/rand"
 	"os"
 	"path/filepath"
+	"runtime/pprof"
 	"sort"
 	"strconv"
 	"strings"
@@ -1639,6 +1640,11 @@ func enCorpus(withCmd bool) []enCoord {
 
 func c01Ends(c *vh.Ctx) {
 	t0 := time.Now()
+	if pf := os.Getenv("C01_PROF"); pf != "" {
+		f, _ := os.Create(pf)
+		pprof.StartCPUProfile(f)
+		defer pprof.StopCPUProfile()
+	}
 	g := &enGen{r: c.Rng}
 	var cases []*enCase
 	skipped := 0
@@ -1725,6 +1731,7 @@ func c01Ends(c *vh.Ctx) {
 	c.Note(fmt.Sprintf("endings stream: %d directed cases, %d random programs, %d outside the reference evaluator (step budget / number range); %d cases run commands (%d processes in all)",
 		nDirected, len(cases)-nDirected, skipped, cmdCases, spawnsUsed))
 
+	c.Note(fmt.Sprintf("timing: endings stream generation %.1fs", time.Since(t0).Seconds()))
 	type outT struct {
 		a, b   enObs
 		ta, tb bool
